@@ -32,6 +32,7 @@ type modelCRL struct {
 	sigOK         bool // signature verifies under an entitled signer
 	needsChain    bool // ... but only if the caller supplies at least one certificate chain
 	needsIssuerCA bool // ... but only if a presented chain (end-entity + CA) is supplied, the stored signer alone does not do
+	signedBy      int  // >= 0: the list verifies exactly under the key with this number (the certificate offered must carry it); -1: any offered certificate does
 }
 
 type server struct {
@@ -44,13 +45,14 @@ var (
 	downloaded  map[string]*modelCRL // temp file -> content
 	results     map[*crlreader.CRLReadResult]*modelCRL
 	certIssuer  map[*x509.Certificate]string
+	certKey     map[*x509.Certificate]int // CA certificates and the key they carry (keyed verification)
 	loadCalls   int
 	verifyCalls int
 	readCalls   int
 )
 
 func newCRL(name, issuer string, serials ...*big.Int) *modelCRL {
-	return &modelCRL{name: name, issuer: issuer, serials: serials, readFailAfter: -1, sigOK: true}
+	return &modelCRL{name: name, issuer: issuer, serials: serials, readFailAfter: -1, sigOK: true, signedBy: -1}
 }
 
 // stub reader: hands the model CRL to the consumer exactly like the streaming reader does
@@ -104,6 +106,19 @@ func modelVerify(result *crlreader.CRLReadResult, chains *core.CertificateChains
 	c := results[result]
 	if c == nil || !c.sigOK {
 		return nil, verifrt.NewError("can not verify CRL signature")
+	}
+	if c.signedBy >= 0 {
+		// keyed verification: the signer is the first offered certificate (presented chain CA, trusted signer
+		// or remembered signer) that carries the key the list was signed with
+		for i := range chains.CertificateChainList {
+			es := chains.CertificateChainList[i].CertificateChainEntryList
+			for j := range es {
+				if k, ok := certKey[es[j].Certificate]; ok && k == c.signedBy {
+					return &es[j], nil
+				}
+			}
+		}
+		return nil, verifrt.NewError("can not find CRL issuer certificate")
 	}
 	if c.needsChain && (chains == nil || len(chains.CertificateChainList) == 0) {
 		return nil, verifrt.NewError("can not find CRL issuer certificate")
@@ -190,6 +205,7 @@ func installWorld() {
 	downloaded = map[string]*modelCRL{}
 	results = map[*crlreader.CRLReadResult]*modelCRL{}
 	certIssuer = map[*x509.Certificate]string{}
+	certKey = map[*x509.Certificate]int{}
 	loadCalls, verifyCalls, readCalls = 0, 0, 0
 	sc := &x509.Certificate{}
 	signer = &core.CertificateChainEntry{RawCertificate: crlstore.VerifReg(sc), Certificate: sc}
@@ -258,6 +274,14 @@ func cert(issuer string, serial *big.Int, cdp ...string) *x509.Certificate {
 
 func chainsOf(c *x509.Certificate) *core.CertificateChains {
 	return core.NewCertificateChains([][]*x509.Certificate{{c, {}}}, nil)
+}
+
+// chainsOfKey: a presented chain [c, CA] whose CA certificate carries key number k
+func chainsOfKey(c *x509.Certificate, k int) *core.CertificateChains {
+	ca := &x509.Certificate{}
+	ca.Raw = crlstore.VerifReg(ca)
+	certKey[ca] = k
+	return core.NewCertificateChains([][]*x509.Certificate{{c, ca}}, nil)
 }
 
 func sym(label string) *big.Int { return big.NewInt(verifrt.NondetInt64(label)) }
